@@ -732,3 +732,65 @@ func init() {
 		return err
 	})
 }
+
+// partialIntrinsics handle only some argument shapes; otherwise the real body runs.
+var partialIntrinsics = map[string]func(p *Path, fn *ssa.Function, a []Value) (Value, bool){}
+
+func init() {
+	// strings.Split of lazily formatted text ("%v/%v/%s" of symbolic numbers): the decimal rendering
+	// of an integer contains only digits and '-', so a separator made of other bytes can only occur
+	// inside the literal pieces
+	partialIntrinsics["strings.Split"] = func(p *Path, fn *ssa.Function, a []Value) (Value, bool) {
+		s, ok := a[0].(StrV)
+		if !ok || s.parts == nil {
+			return nil, false
+		}
+		sep, ok := strConcrete(a[1].(StrV))
+		if !ok || sep == "" {
+			return nil, false
+		}
+		for _, c := range sep {
+			if c == '-' || (c >= '0' && c <= '9') {
+				return nil, false
+			}
+		}
+		var out []Value
+		var cur []StrPart
+		flush := func() {
+			v := StrV{parts: cur}
+			allLit := true
+			lit := ""
+			for _, q := range cur {
+				if q.dec != nil || q.approx {
+					allLit = false
+				}
+				lit += q.lit
+			}
+			if allLit {
+				v = StrV{s: lit}
+			}
+			out = append(out, v)
+			cur = nil
+		}
+		for _, q := range s.parts {
+			if q.approx {
+				return nil, false
+			}
+			if q.dec != nil {
+				cur = append(cur, q)
+				continue
+			}
+			pieces := strings.Split(q.lit, sep)
+			for i, piece := range pieces {
+				if i > 0 {
+					flush()
+				}
+				if piece != "" {
+					cur = append(cur, StrPart{lit: piece})
+				}
+			}
+		}
+		flush()
+		return p.sliceFrom(out), true
+	}
+}
